@@ -54,23 +54,52 @@ TtcMemberLists ==
       d2 == <<[tag |-> TagB, tid |-> 2], [tag |-> TagC, tid |-> 3]>>
       d3 == <<[tag |-> TagC, tid |-> 1], [tag |-> TagA, tid |-> 3], [tag |-> TagB, tid |-> 2]>>
       d4 == <<[tag |-> TagA, tid |-> 1]>>
-  IN {<<d1>>, <<d1, d2>>, <<d2, d1>>, <<d1, d2, d3>>, <<d3, d4, d4>>, <<d4, <<>>, d2>>, <<>>}
+  IN {<<d1>>, <<d1, d2>>, <<d2, d1>>, <<d1, d2, d3>>, <<d3, d4, d4>>, <<d4, <<>>, d2>>, <<d1, d1>>, <<>>}
+
+\* sfnt flavours of the members of a collection (by member position): uniform, and mixed ones
+TtcFlavorLists ==
+  IF Thorough THEN {<<MagicTTF, MagicTTF, MagicTTF>>, <<MagicOTTO, MagicTTF, MagicTrue>>, <<MagicTrue, MagicOTTO, MagicOTTO>>}
+  ELSE {<<MagicTTF, MagicTTF, MagicTTF>>, <<MagicOTTO, MagicTTF, MagicTrue>>}
+
+\* physical layouts of a collection (Sfnt!WriteTtcPlan): ds = the members that own an offset table, o = body order
+TtcLayouts == {"after", "before", "split", "tail", "revdirs", "inter"}
+TtcHeaders == {"v1", "v2null", "v2dsig"}
+RECURSIVE Zip2(_, _)
+Zip2(D, B) == IF D = <<>> THEN B ELSE IF B = <<>> THEN D ELSE <<D[1], B[1]>> \o Zip2(Tail(D), Tail(B))
+MkPlan(lay, ds, o) ==
+  LET D == [k \in 1 .. Len(ds) |-> <<"d", ds[k]>>]
+      B == [k \in 1 .. Len(o) |-> <<"b", o[k]>>]
+  IN CASE lay = "after"   -> D \o B                                      \* header / offset tables / table data
+       [] lay = "before"  -> B \o D                                      \* header / table data / offset tables
+       [] lay = "split"   -> <<B[1]>> \o D \o SubSeq(B, 2, Len(B))
+       [] lay = "tail"    -> SubSeq(B, 1, 2) \o D \o SubSeq(B, 3, Len(B))
+       [] lay = "revdirs" -> Reverse(D) \o B                             \* member offsets descending
+       [] lay = "inter"   -> Zip2(D, B)                            \* offset table, data, offset table, data ...
 
 \* damage: none, or one patched field
 Damages == {"none", "lenPastEof", "offPastEof", "offAtEof", "memberPastEof", "truncDir"}
 
+\* zlib forms of generated WOFF streams and the optional blocks / header fields of a WOFF file
+ZForms == {[hdr |-> h, split |-> sp] : h \in ZlibHeaders, sp \in BOOLEAN}
+WoffBase == [zform |-> ZForm0, ext |-> "none", real |-> FALSE]
+WoffVariants == {[zform |-> zf, ext |-> "none", real |-> FALSE] : zf \in ZForms \ {ZForm0}}
+                \cup {[zform |-> ZForm0, ext |-> e, real |-> r] : e \in {"meta", "metapriv"}, r \in BOOLEAN}
+                \cup {[zform |-> ZForm0, ext |-> "none", real |-> TRUE]}
+
 \* The universe of cases, as three families.  Init draws a case through nested quantifiers instead of
 \* c \in (one big union set): TLC then enumerates initial states one by one and never has to build and
 \* normalise a set of ~200 000 nested records (which took > 15 min single-threaded in the thorough tier).
-SfntCase(t, f, d, o, g, dm) ==
+\* Every case record has the same fields; those that do not apply to a kind hold a fixed value.
+SfntCase(t, f, d, o, g, real, dm) ==
   [kind |-> "sfnt", tables |-> t, members |-> <<[flavor |-> f, dir |-> d]>>, order |-> o, gaps |-> g,
-   zipped |-> {}, major |-> 1, damage |-> dm]
-TtcCase(t, ml, o, g, mj, dm) ==
-  [kind |-> "ttc", tables |-> t, members |-> [k \in 1 .. Len(ml) |-> [flavor |-> MagicTTF, dir |-> ml[k]]],
-   order |-> o, gaps |-> g, zipped |-> {}, major |-> mj, damage |-> dm]
-WoffCase(t, f, d, o, g, z, dm) ==
+   zipped |-> {}, lay |-> "after", hdr |-> "v1", share |-> FALSE, real |-> real, wv |-> WoffBase, damage |-> dm]
+TtcCase(t, ml, fl, o, g, lay, hdr, share, real, dm) ==
+  [kind |-> "ttc", tables |-> t, members |-> [k \in 1 .. Len(ml) |-> [flavor |-> fl[k], dir |-> ml[k]]],
+   order |-> o, gaps |-> g, zipped |-> {}, lay |-> lay, hdr |-> hdr, share |-> share, real |-> real, wv |-> WoffBase,
+   damage |-> dm]
+WoffCase(t, f, d, o, g, z, wv, dm) ==
   [kind |-> "woff", tables |-> t, members |-> <<[flavor |-> f, dir |-> d]>>, order |-> o, gaps |-> g,
-   zipped |-> z, major |-> 1, damage |-> dm]
+   zipped |-> z, lay |-> "after", hdr |-> "v1", share |-> FALSE, real |-> wv.real, wv |-> wv, damage |-> dm]
 
 SfntOrders == {Orders1 \in Orders : Thorough \/ Orders1[1] # 2}
 SfntGaps   == {gm \in GapMaps : Thorough \/ gm[2] = gm[3]}
@@ -78,25 +107,50 @@ TtcOrders  == {Orders1 \in Orders : Thorough \/ Orders1[1] = 1}
 FlatGaps   == {gm \in GapMaps : gm[1] = gm[2] /\ gm[2] = gm[3]}
 WoffDirs   == {dd \in Dirs : Thorough \/ Len(dd) # 2}
 WoffOrders == {Orders1 \in Orders : Thorough \/ Orders1[1] = 3}
+TtcGaps    == {gm \in FlatGaps : gm[1] # 1}          \* all gaps 0, or all 3
+HasTwin(ml) == \E i, j \in 1 .. Len(ml) : i < j /\ ml[i] = ml[j]
 
 IsCase(x) ==
-  \/ \E t \in ContentSets, f \in Flavors, d \in Dirs, o \in SfntOrders, g \in SfntGaps,
-        dm \in {"none", "lenPastEof", "offPastEof", "offAtEof", "truncDir"} : x = SfntCase(t, f, d, o, g, dm)
-  \/ \E t \in ContentSets, ml \in TtcMemberLists, o \in TtcOrders, g \in FlatGaps, mj \in {1, 2},
-        dm \in {"none", "memberPastEof", "lenPastEof"} : x = TtcCase(t, ml, o, g, mj, dm)
+  \* (thorough: all 27 gap maps for the intact plain form, the 9 with gm[2] = gm[3] for damaged files and real fields)
+  \/ \E t \in ContentSets, f \in Flavors, d \in Dirs, o \in SfntOrders,
+        dm \in {"none", "lenPastEof", "offPastEof", "offAtEof", "truncDir"} :
+        \E real \in (IF dm = "none" THEN BOOLEAN ELSE {FALSE}) :
+        \E g \in (IF dm = "none" /\ ~real THEN SfntGaps ELSE {gm \in SfntGaps : gm[2] = gm[3]}) :
+           x = SfntCase(t, f, d, o, g, real, dm)
+  \* intact collections: every layout x every header form x both kinds of directory fields; members with equal
+  \* directories additionally share one offset table
+  \/ \E t \in ContentSets, ml \in TtcMemberLists, fl \in TtcFlavorLists, o \in TtcOrders, g \in TtcGaps,
+        lay \in TtcLayouts, hdr \in TtcHeaders, real \in BOOLEAN :
+        \E share \in (IF HasTwin(ml) THEN BOOLEAN ELSE {FALSE}) : x = TtcCase(t, ml, fl, o, g, lay, hdr, share, real, "none")
+  \/ \E t \in ContentSets, ml \in TtcMemberLists, o \in TtcOrders, g \in TtcGaps,
+        lay \in (IF Thorough THEN TtcLayouts ELSE {"after", "before"}), hdr \in (IF Thorough THEN {"v1", "v2dsig"} ELSE {"v1"}),
+        dm \in {"memberPastEof", "lenPastEof", "offAtEof"} :
+        x = TtcCase(t, ml, <<MagicTTF, MagicTTF, MagicTTF>>, o, g, lay, hdr, FALSE, FALSE, dm)
   \/ \E t \in ContentSets, f \in Flavors, d \in WoffDirs, o \in WoffOrders, g \in FlatGaps, z \in SUBSET {1, 2, 3},
-        dm \in {"none", "lenPastEof"} : x = WoffCase(t, f, d, o, g, z, dm)
+        dm \in {"none", "lenPastEof"} :
+        (dm = "none" \/ ~Thorough \/ Cardinality(z) # 1) /\ x = WoffCase(t, f, d, o, g, z, WoffBase, dm)
+  \* the other stream forms (only where every table is a stream) and the optional blocks / header fields
+  \/ \E t \in ContentSets, f \in Flavors, d \in WoffDirs, o \in {oo \in WoffOrders : oo[1] = 3}, wv \in WoffVariants :
+        \E z \in (IF wv.zform = ZForm0 THEN (IF Thorough THEN SUBSET {1, 2, 3} ELSE {{}, {2}, {1, 2, 3}}) ELSE {{1, 2, 3}} \cup (IF Thorough THEN {{1}, {2, 3}} ELSE {})) :
+        x = WoffCase(t, f, d, o, [k \in 1 .. 3 |-> 0], z, wv, "none")
+
+\* members that own an offset table, and whose table each member uses
+DirOf(x) == [m \in 1 .. Len(x.members) |->
+               IF x.share THEN Min({j \in 1 .. m : x.members[j] = x.members[m]}) ELSE m]
+Owners(x) == LET own == {m \in 1 .. Len(x.members) : DirOf(x)[m] = m} IN SetToSortSeq(own, <)
+PlanOf(x) == MkPlan(x.lay, Owners(x), x.order)
 
 Intact(x) ==
-  CASE x.kind = "sfnt" -> WriteSfnt(x.tables, x.members[1], x.order, x.gaps)
-    [] x.kind = "ttc"  -> WriteTtc(x.tables, x.members, x.order, x.gaps, x.major)
-    [] x.kind = "woff" -> WriteWoff(x.tables, x.members[1], x.order, x.gaps, x.zipped)
+  CASE x.kind = "sfnt" -> WriteSfntR(x.tables, x.members[1], x.order, x.gaps, x.real)
+    [] x.kind = "ttc"  -> WriteTtcPlan(x.tables, x.members, PlanOf(x), DirOf(x), x.gaps, x.hdr, x.real)
+    [] x.kind = "woff" -> WriteWoffX(x.tables, x.members[1], x.order, x.gaps, x.zipped, x.wv.zform, x.wv.ext, x.wv.real)
 
 Patch(bs, p, new) == [k \in 1 .. Len(bs) |-> IF k > p /\ k <= p + Len(new) THEN new[k - p] ELSE bs[k]]
 
 \* position of the first directory record's offset / length field of member 1
 RecPos(x) == CASE x.kind = "sfnt" -> [off |-> 12 + 8, len |-> 12 + 12]
-               [] x.kind = "ttc"  -> [off |-> 12 + 4 * Len(x.members) + 12 + 8, len |-> 12 + 4 * Len(x.members) + 12 + 12]
+               [] x.kind = "ttc"  -> LET st == TtcStarts(x.tables, x.members, PlanOf(x), DirOf(x), x.gaps, x.hdr)[1]
+                                     IN [off |-> st + 12 + 8, len |-> st + 12 + 12]
                [] x.kind = "woff" -> [off |-> 44 + 4, len |-> 44 + 8]
 
 HasRec(x) == x.members # <<>> /\ x.members[1].dir # <<>>
@@ -137,9 +191,16 @@ Expect(bs) ==
   ELSE [load |-> TRUE, kind |-> ld.v.kind,
         members |-> [k \in 1 .. (IF ld.v.kind = "ttc" THEN Len(ld.v.offsets) + 2 ELSE 3) |-> MemberObs(bs, ld, k - 1)]]
 
+\* which family of layout / form a case belongs to (for the driver's vacuity counters and messages only)
+Variant(x) ==
+  CASE x.kind = "ttc"  -> x.lay \o "/" \o x.hdr \o (IF x.share THEN "/shared" ELSE "") \o (IF x.real THEN "/real" ELSE "")
+    [] x.kind = "sfnt" -> IF x.real THEN "real" ELSE "plain"
+    [] x.kind = "woff" -> (IF x.wv.zform = ZForm0 THEN "z0" ELSE IF x.wv.zform.split THEN "zsplit" ELSE "zhdr")
+                          \o "/" \o x.wv.ext \o (IF x.real THEN "/real" ELSE "")
+
 EmitCase ==
   done => LET bs == Damaged(c) IN
-          PrintT(<<"CASE", ToJson([kind |-> c.kind, damage |-> c.damage, bytes |-> bs,
+          PrintT(<<"CASE", ToJson([kind |-> c.kind, damage |-> c.damage, variant |-> Variant(c), bytes |-> bs,
                                    qtags |-> QueryTags, exp |-> Expect(bs)])>>)
 
 \* reader results never leak bytes that are not the stored table (also for damaged files):
